@@ -95,7 +95,7 @@ static std::vector<std::string> tokenizeAsm(const std::string &src) {
 }
 
 int main(int argc, char **argv) {
-  ctx = parse_args("C10", argc, argv, 600, 3600);
+  ctx = parse_args("C10", argc, argv, 600, 5400);
   g_out = ctx.scratch + "/c10.out";
   Report rep; rep.ctx = ctx;
   if (!ctx.replayPath.empty()) {
